@@ -68,7 +68,7 @@ def in_domain(s, fname=False, max_len=None):
         return False
     if max_len is not None and len(s) > max_len:
         return False
-    if fname and ("/" in s or len(s.encode("utf-8")) > 200):
+    if fname and ("/" in s or s in (".", "..") or len(s.encode("utf-8")) > 200):
         return False
     return True
 
@@ -79,13 +79,17 @@ def _clip(s, max_len, fname):
         s = s.replace("/", "\\")
         while len(s.encode("utf-8")) > 200:
             s = s[:-1]
+        if s in (".", ".."):  # directory entries, not file names
+            s += "x"
     return s
 
 
 def markup_text(max_len=24, fname=False):
     """Non-empty str of <= max_len code points (see module docstring)."""
     tok = _token()
-    general = st.lists(tok, min_size=1, max_size=7).map("".join)
+    # (blank-only strings come from `blank` below; a blank-only token list becomes a blank-edged string)
+    general = st.lists(tok, min_size=1, max_size=7).map("".join).map(
+        lambda x: x if x.strip(" \t\r\n") else "a" + x)
     single = st.one_of(st.sampled_from(MARKUP + ["\r", "\n", "\t", " ", "]]>", "&amp;", "%s", "{}"]), tok)
     # one interesting token embedded in plain text (keeps the failure cause unambiguous)
     embedded = st.tuples(st.sampled_from(["", "a", "ab ", " "]), tok, st.sampled_from(["", "z", " yz", " "])).map("".join)
@@ -94,7 +98,7 @@ def markup_text(max_len=24, fname=False):
     longish = st.tuples(st.lists(tok, min_size=1, max_size=5).map("".join),
                         st.sampled_from([30, 60, 120, 200])).map(lambda t: (t[0] * (t[1] // max(1, len(t[0])) + 1))[:t[1]])
     s = st.one_of(general, general, general, general, embedded, embedded, embedded, single, single,
-                  st.one_of(blank, longish, longish))
+                  st.one_of(blank, longish, longish, longish))
     return s.map(lambda x: _clip(x, max_len, fname)).filter(lambda x: x != "")
 
 
